@@ -1,6 +1,7 @@
 package main
 
 import (
+	"bytes"
 	"encoding/json"
 
 	"github.com/tyler-sommer/stick"
@@ -89,6 +90,24 @@ func init() {
 		}
 		if err := render(compact, "compact"); err != nil {
 			return nil, err
+		}
+		// the same two spellings where an expression is a condition: if, elseif, the filter of a for, a conditional, a set
+		condForm := func(src []byte) []byte {
+			if !bytes.HasPrefix(src, []byte("{{ ")) || !bytes.HasSuffix(src, []byte(" }}")) {
+				return nil
+			}
+			e := string(src[3 : len(src)-3])
+			return []byte("{% if " + e + " %}y{% else %}n{% endif %}|{% if false %}x{% elseif " + e + " %}y{% else %}n{% endif %}|" +
+				"{% for i in [1] if " + e + " %}y{% else %}n{% endfor %}|{% set r = " + e + " %}{{ r ? 'y' : 'n' }}|{{ " + e + " ? 'y' : 'n' }}")
+		}
+		if fc, pc := condForm(flat), condForm(paren); fc != nil && pc != nil {
+			obs["condflat_src"] = string(fc)
+			if err := render(fc, "condflat"); err != nil {
+				return nil, err
+			}
+			if err := render(pc, "condparen"); err != nil {
+				return nil, err
+			}
 		}
 		rec := &recorder{srcs: map[string][]byte{"t": flat}, failedAt: -1}
 		tree, perr := stick.New(rec).Parse("t")
